@@ -626,6 +626,14 @@ def atom_cases(tier, seed):
     for kind, form, fmt, spelling in WIDE_FORMS:
         for s in RAIL_EXTRA:
             add(kind, form + '-wide', fmt, spelling, s)
+    # a wide / combining text on the LEFT of a taller element (closure, optional, choice, join): the rows that only the taller
+    # element contributes are padded by the display width of what stands to their left
+    for form, fmt in (('then-closure', "start = '{s}' {'a'}+ $ ;"), ('then-optional', "start = '{s}' ['a' 'b'] $ ;"),
+                      ('then-choice', "start = '{s}' ('a' | 'b' 'c' | 'd') $ ;"), ('then-join', "start = '{s}' ','.{'a'}+ $ ;"),
+                      ('in-choice-then-closure', "start = '{s}' {x}+ | 'q' [x] ;\nx = /[0-9]+/ ;")):
+        for s in RAIL_EXTRA:
+            if "'" not in s and '\\' not in s and '\n' not in s:
+                add('token', 'sq-wide-' + form, fmt, 'raw', s)
     # texts that span lines: where the printers indent, trim and re-quote
     for kind, form, fmt, spelling in ML_FORMS:
         for s in strings(ML_ALPHA, L + 1):
